@@ -92,6 +92,21 @@ func (e *Env) resolve(j Job, tab Table, tok string) (Concrete, bool) {
 	abs, classes, sf := e.Classify(m, c.Scn.Fam)
 	s, ok := tab[tkey(abs, classes, c.Scn.Fam)]
 	if !ok {
+		// the generator prints the IPv6 twin only where the family can matter (an
+		// address-qualified leaf, or at most two components)
+		hasAddr := false
+		for _, cl := range classes {
+			switch cl {
+			case "La4", "La6", "La4port", "La4ip", "Lhost":
+				hasAddr = true
+			}
+		}
+		if !hasAddr {
+			s, ok = tab[tkey(abs, classes, 4)]
+			s.Fam = c.Scn.Fam
+		}
+	}
+	if !ok {
 		return c, false
 	}
 	s.Fault = "none"
